@@ -95,6 +95,10 @@ def _read_eval(text, pos, path):
         lit = []
       parts.append(("var", m.group(0)))
       pos = m.end()
+  if pos >= n:
+    # the string ran into the end of the file (its last line ended in the
+    # continuation `$<newline>`): ninja's lexer says "unexpected EOF"
+    raise PlanRejected("unexpected EOF")
   if lit:
     parts.append(("lit", "".join(lit)))
   return EvalString(parts), pos
